@@ -42,7 +42,7 @@ def classify(check_desc):
 def native_search(sh):
     """Confirm on the real crate, natively: exhaustive run of every operation sequence of the harness's shape
     over a grid of generations/tags/paths (replay/pool).  Returns (list of VIOLATED lines, raw output)."""
-    cdir = os.path.join(core.VERIF, "replay", "pool")
+    cdir = os.path.join(core.REPLAY_CRATES, "pool")
     shutil.copyfile(os.path.join(core.REPO, "Cargo.lock"), os.path.join(cdir, "Cargo.lock"))
     env = dict(os.environ)
     env["CARGO_NET_OFFLINE"] = "true"
